@@ -82,7 +82,7 @@ Proof. vm_compute. reflexivity. Qed.
 (* (5) the prefix! table *)
 Theorem c05_prefix_table :
   forallb prefix_ok10 decimal_prefixes && forallb prefix_ok2 binary_prefixes
-  && Nat.eqb (List.length si_prefixes) (List.length decimal_prefixes + List.length binary_prefixes) = true.
+  && forallb prefix_known si_prefixes = true.
 Proof. vm_compute. reflexivity. Qed.
 
 (* (6) no coefficient is zero; unit names are unique within a quantity *)
